@@ -246,6 +246,19 @@ def check_c09(tier, seed):
             try:
                 L2.backward()
             except InvalidBackprop:
+                # the refusal is not a one-off: asking again (after catching the exception) is refused again -- it never turns into a silent pass
+                # that leaves stale / partial gradients behind
+                b.count("a repeated backward is refused again")
+                try:
+                    L2.backward()
+                    gx2, gc2 = x.grad, c.grad
+                    mutated = any(a in ("x[...]=c", "view-of-x*=c") for a in hist)
+                    if gc2 is None or not close(gc2, exp_c, rtol=1e-10, atol=1e-12) or (not mutated and (gx2 is None or not close(gx2, exp_x, rtol=1e-10, atol=1e-12))):
+                        b.fail("C09.bounded.second_backward_silent", dict(desc, x=xv.tolist(), c=cv.tolist()), f"the first L2.backward() raised InvalidBackprop, the second returned silently with x.grad = {None if gx2 is None else gx2.tolist()}, c.grad = {None if gc2 is None else gc2.tolist()}")
+                except InvalidBackprop:
+                    pass
+                except Exception as e:
+                    b.fail("C09.bounded.wrong_exception", dict(desc, call="second L2.backward()"), f"{type(e).__name__}: {e}")
                 b.case(desc)
                 continue
             except Exception as e:
@@ -345,7 +358,7 @@ def check_c13(tier, seed):
     rng = np.random.default_rng(seed)
     b = Bounded(
         "C13.bounded",
-        bound="6 base programs x every insertion position x 18 failing statement kinds (integer result / integer view requested with constant=False -- the kernel succeeds and the result is refused --, bad broadcast in a non-view op, bad reshape / index in a view op, bad value shape / out-of-range index / read-only target in an in-place update on a base and on a view, bad dtype, bad out=, bad axis, bad einsum spec); one epoch and across an epoch boundary",
+        bound="6 base programs x every insertion position x 23 failing statement kinds (composite functions whose later step fails -- clip with two bounds into out=, multi_matmul, softmax_focal_loss --, integer result / integer view requested with constant=False -- the kernel succeeds and the result is refused --, bad broadcast in a non-view op, bad reshape / index in a view op, bad value shape / out-of-range index / read-only target in an in-place update on a base and on a view, bad dtype, bad out=, bad axis, bad einsum spec); one epoch and across an epoch boundary",
         rule="case = (program, position, failing statement); non-trivial = the statement raises and the snapshot of every existing tensor is compared",
     )
 
@@ -387,6 +400,19 @@ def check_c13(tier, seed):
         if kind == "shape-set-bad":
             x.shape = (5, 5)
             return None
+        # composite functions that run several operations: a LATER step fails after an earlier one succeeded
+        if kind == "clip-second-step-fails-out-view":
+            return mg.clip(env["c"], 0.0, np.ones((7,)), out=v)
+        if kind == "clip-second-step-fails-out-base":
+            return mg.clip(x, 0.0, np.ones((7,)), out=x)
+        if kind == "np.clip-second-step-fails-out-view":
+            return np.clip(env["c"], 0.0, np.ones((7,)), out=v)
+        if kind == "multi_matmul-later-product-fails":
+            return mg.multi_matmul([x, x.T, np.ones((7, 2))])
+        if kind == "softmax_focal_loss-second-step-fails":
+            import mygrad.nnet as _nn
+
+            return _nn.softmax_focal_loss(x, np.array([0, 1, 2]))
         # statements whose kernel succeeds and whose *result* is then refused (integer result requested as a variable)
         if kind == "int-result-nonconstant":
             return mg.multiply(env["k"], 2, constant=False)
@@ -398,7 +424,8 @@ def check_c13(tier, seed):
 
     kinds = ["bad-broadcast", "bad-matmul", "bad-reshape", "bad-index", "bad-index-view", "bad-axis", "bad-einsum", "inplace-bad-shape-base", "inplace-bad-shape-view",
              "inplace-oob-base", "inplace-oob-view", "inplace-iadd-bad", "bad-out", "bad-dtype", "shape-set-bad",
-             "int-result-nonconstant", "int-view-nonconstant", "int-result-nonconstant-mixed"]
+             "int-result-nonconstant", "int-view-nonconstant", "int-result-nonconstant-mixed",
+             "clip-second-step-fails-out-view", "clip-second-step-fails-out-base", "np.clip-second-step-fails-out-view", "multi_matmul-later-product-fails", "softmax_focal_loss-second-step-fails"]
 
     # programs as step lists over an environment; x (2,3) base, v a view of it, w uses both
     def steps_simple():
@@ -474,6 +501,11 @@ def check_c13(tier, seed):
                         continue  # not a failing statement in this state: outside the domain
                     b.count("failed statement leaves no trace")
                     after = snapshot(tens)
+                    if kind.split("-")[0] in ("clip", "np.clip", "multi_matmul", "softmax_focal_loss"):
+                        # an earlier step of a composite function is a successful non-view operation of its own: it legitimately nulls the
+                        # gradients of its operands (C07); everything else must be as before
+                        for s_ in before + after:
+                            s_["grad"] = None
                     diff = snap_equal(before, after)
                     if diff is not None:
                         b.fail("C13.bounded.trace", desc, f"field `{diff}` of an existing tensor changed although the statement raised")
